@@ -341,6 +341,11 @@ class ProgGen:
         k = weighted(r, [('lit', 4), ('concat', 2), ('slice', 2), ('map', 3), ('filter', 2), ('sorted', 2), ('rev', 1),
                          ('kvi', 1.5), ('split', 1), ('enum', 0.7), ('if', 1), ('mapstr', 1.3), ('mapdict', 0.7),
                          ('sortedkey', 1), ('callfn', 0.7), ('listcall', 0.5)])
+        if k == 'lit' and r.random() < 0.03:
+            # a table of constants: 70 or 140 plain literals (no size at which a literal stops being a fresh list)
+            self.kinds.add('long_literal')
+            n = r.choice([70, 140])
+            return ['list', [['num', str((i * 7) % 23)] if i % 5 else ['str', 'c%d' % (i % 3)] for i in range(n)]]
         if k == 'lit':
             et = r.choice(['num', 'num', 'str', 'mixed', 'list', 'dict'])
             self.kinds.add('list')
